@@ -184,6 +184,19 @@ pub fn run(tier: Tier) -> i32 {
             }
         }
     }
+    if tier == Tier::Quick {
+        // three locales in the quick tier too (an inheriting locale listed before a non-inheriting one
+        // needs three): every 40th pattern for fr x reduced patterns for de x every inherits map
+        let locs = ["en", "fr", "de"];
+        let maps = crate::c03::inherits_maps(&locs);
+        for i in (0..pats.len()).step_by(40) {
+            for j in 0..reduced.len() {
+                for m in &maps {
+                    jobs.push(J { fr: i, de: Some(j), inherits: m.clone(), ns: false });
+                }
+            }
+        }
+    }
     if tier == Tier::Thorough {
         // three locales: all patterns for fr x reduced patterns for de x every inherits map
         let locs = ["en", "fr", "de"];
